@@ -101,10 +101,35 @@ def _mutate(kind, obj, op):
         t, a = _tr_args(op)
         obj.translate_rotate(t, a)
     elif name == "set_shape":
-        _pred_of(obj).shape = scen.rand_shape(random.Random(op[1]), ("rect", "circ", "poly"))
+        p, rng = _pred_of(obj), random.Random(op[1])
+        sh = p.shape
+        if len(op) > 2 and op[2] == "inplace" and isinstance(sh, (Rectangle, Circle, Polygon)):
+            # the shape the prediction holds is edited through its own setters and handed back: the SAME object.
+            # (First a private copy is handed over, so that the edit reaches nobody else - an obstacle may hold the very
+            # same shape object as its obstacle_shape - and the occupancies are read once, as a user would have.)
+            sh = copy.deepcopy(sh)
+            p.shape = sh
+            _ = p.occupancy_set
+            if isinstance(sh, Rectangle):
+                sh.length, sh.width = scen.rnd(rng, 1, 7), scen.rnd(rng, 0.5, 3)
+            elif isinstance(sh, Circle):
+                sh.radius = scen.rnd(rng, 0.3, 4)
+            else:
+                sh.vertices = scen.rand_shape(rng, ("poly",)).vertices
+            p.shape = sh
+        else:
+            p.shape = scen.rand_shape(rng, ("rect", "circ", "poly"))
     elif name == "set_traj":
         p = _pred_of(obj)
-        p.trajectory = O.gen_traj(random.Random(op[1]), p.trajectory.initial_time_step)
+        if len(op) > 2 and op[2] == "inplace":
+            # the trajectory the prediction holds grows by one state and is handed back: the SAME object
+            tr = p.trajectory
+            st = copy.deepcopy(tr.final_state)
+            st.time_step = tr.final_state.time_step + 1
+            tr.append_state(st)
+            p.trajectory = tr
+        else:
+            p.trajectory = O.gen_traj(random.Random(op[1]), p.trajectory.initial_time_step)
     elif name == "set_init":
         obj.initial_state = scen.rand_state(random.Random(op[1]), InitialState, obj.initial_state.time_step)
     elif name in ("set_pred", "update_pred"):
@@ -431,13 +456,14 @@ def may_remove(lls, op):
 def g_mutator(rng, kind, obj):
     s = rng.getrandbits(30)
     if kind == "pred":
-        return rng.choice([g_tr(rng), g_tr(rng), ["set_shape", s], ["set_traj", s]])
+        return rng.choice([g_tr(rng), g_tr(rng), ["set_shape", s], ["set_traj", s], ["set_shape", s, "inplace"],
+                           ["set_traj", s, "inplace"]])
     if kind == "dyn":
         ms = [g_tr(rng), g_tr(rng), ["set_init", s], ["update_init", s, rng.randint(1, 4)],
               ["update_pred", s, rng.choice(["traj", "traj", "set"])],
               ["set_pred", s, rng.choice(["traj", "set", "none"])]]
         if _pred_of(obj) is not None:
-            ms += [["set_shape", s], ["set_traj", s]]
+            ms += [["set_shape", s], ["set_traj", s], ["set_shape", s, "inplace"], ["set_traj", s, "inplace"]]
         return rng.choice(ms)
     if kind == "static":
         return rng.choice([g_tr(rng), g_tr(rng), ["set_init", s]])
